@@ -45,6 +45,9 @@ var _ Input = (*NonNull)(nil)
 
 // IsInputType determines if given type is a GraphQLInputType
 func IsInputType(ttype Type) bool {
+	if isNilType(GetNamed(ttype)) {
+		return false
+	}
 	switch GetNamed(ttype).(type) {
 	case *Scalar, *Enum, *InputObject:
 		return true
@@ -55,12 +58,26 @@ func IsInputType(ttype Type) bool {
 
 // IsOutputType determines if given type is a GraphQLOutputType
 func IsOutputType(ttype Type) bool {
+	if isNilType(GetNamed(ttype)) {
+		return false
+	}
 	switch GetNamed(ttype).(type) {
 	case *Scalar, *Object, *Interface, *Union, *Enum:
 		return true
 	default:
 		return false
 	}
+}
+
+// isNilType reports whether a type is absent: a nil interface value, or a nil pointer
+// of one of the type kinds (a declared but never assigned type variable that found its
+// way into a configuration).
+func isNilType(ttype interface{}) bool {
+	if ttype == nil {
+		return true
+	}
+	v := reflect.ValueOf(ttype)
+	return v.Kind() == reflect.Ptr && v.IsNil()
 }
 
 // Leaf interface for types that may be leaf values
@@ -519,6 +536,12 @@ func defineFieldMap(ttype Named, fieldMap Fields) (FieldDefinitionMap, error) {
 			`%v.%v field type must be Output Type but got: %v.`, ttype, fieldName, field.Type,
 		)
 		if err != nil {
+			return resultFieldMap, err
+		}
+		if err = invariantf(
+			!isNilType(field.Type),
+			`%v.%v field type must be Output Type but got: %v.`, ttype, fieldName, field.Type,
+		); err != nil {
 			return resultFieldMap, err
 		}
 		if field.Type.Error() != nil {
